@@ -84,21 +84,24 @@ def pathOfTag : Val N → Option (List Nat)
     | _ => none
   | _ => none
 
-/-- value at a path of child indices (array index / member position, tags not counted) -/
-def getAt : Val N → List Nat → Option (Val N)
-  | v, [] => some v
-  | .arr xs, i :: p => match xs[i]? with | some x => getAt x p | none => none
-  | .obj kvs, i :: p => match (kvs.filter fun q => q.1 != tagKey)[i]? with | some q => getAt q.2 p | none => none
-  | _, _ => none
+/-- the tagged object with location `p`, found by its tag (positions shift when members are deleted or
+    added, tags do not) -/
+partial def getAt (v : Val N) (p : List Nat) : Option (Val N) :=
+  match v with
+  | .arr xs => xs.findSome? (fun x => getAt x p)
+  | .obj kvs =>
+    if pathOfTag (.obj kvs) == some p then some (.obj kvs)
+    else kvs.findSome? (fun q => if q.1 == tagKey then none else getAt q.2 p)
+  | _ => none
 
-def modifyAt (f : Val N → Val N) : Val N → List Nat → Val N
-  | v, [] => f v
-  | .arr xs, i :: p => .arr (xs.mapIdx fun j x => if j == i then modifyAt f x p else x)
-  | .obj kvs, i :: p =>
-    let tagged := kvs.filter fun q => q.1 == tagKey
-    let rest := kvs.filter fun q => q.1 != tagKey
-    .obj (tagged ++ rest.mapIdx fun j q => if j == i then (q.1, modifyAt f q.2 p) else q)
-  | v, _ => v
+/-- replace the tagged object with location `p` -/
+partial def modifyAt (f : Val N → Val N) (v : Val N) (p : List Nat) : Val N :=
+  match v with
+  | .arr xs => .arr (xs.map fun x => modifyAt f x p)
+  | .obj kvs =>
+    if pathOfTag (.obj kvs) == some p then f (.obj kvs)
+    else .obj (kvs.map fun q => if q.1 == tagKey then q else (q.1, modifyAt f q.2 p))
+  | v => v
 
 def allStrsV : List (Val N) → Option (List String)
   | [] => some []
